@@ -1,5 +1,5 @@
 From Coq Require Import ZArith List Bool.
-From PV Require Import Base.U64 C13.C13_Model C13.C13_Msg C13.C13_Proofs C13.C13_MsgProofs C13.C13_Statements.
+From PV Require Import Base.U64 C13.C13_Model C13.C13_Msg C13.C13_Proofs C13.C13_MsgProofs C13.C13_Statements C13.C13_ChunkSafe.
 Import ListNotations.
 Local Open Scope Z_scope.
 
@@ -83,3 +83,9 @@ Theorem parse_fragmentation_dependent_malformed_refuted :
     nkv_of (receive_header 10 (msg_init true 16384 0 0) ps2 false) = 1.
 Proof. exact parse_fragmentation_dependent_malformed_refuted_proof. Qed.
 Print Assumptions parse_fragmentation_dependent_malformed_refuted.
+
+Theorem chunked_read_within_count : forall fuel s count r o s',
+  crs_read_f fuel s count = Some (r, o, s') -> 0 <= c_remain s -> 0 <= count ->
+  0 <= c_remain s' /\ (r < 0 \/ (zlen o = r /\ 0 <= r <= count)).
+Proof. exact chunked_read_within_count_proof. Qed.
+Print Assumptions chunked_read_within_count.
